@@ -131,9 +131,12 @@ static void v_stop(void *c) { __CPROVER_assert(c == (void *)&v_pub, "hook cookie
 static void v_start(void *c) { __CPROVER_assert(c == (void *)&v_pub, "hook cookie"); g_start_calls++; }
 
 static int g_local_mode, g_local_cont;
+static int g_relock_mode, g_relocks, g_collected, g_exp_posts, g_in_work;
 static void v_work(void *c)
 {
 	int i = (struct iv_work_item *)c - v_item;
+
+	g_in_work = 1;
 
 	if (g_lock_held) g_work_while_locked++;
 	__CPROVER_assert(i >= 0 && i <= NWI && g_work_runs[i] == 0, "[C12] a work function is executed at most once per submission");
@@ -153,6 +156,7 @@ static void v_work(void *c)
 		iv_work_pool_submit_continuation(NULL, &v_new);
 	}
 	g_calls++;
+	g_in_work = 0;
 }
 static void v_completion(void *c)
 {
@@ -267,8 +271,10 @@ void h_thread_got_event(void)
 		iv_list_add_tail(&v_item[NWI].list, &v_pool->work_done);	/* an earlier, undelivered completion */
 	n0 = verif_in.nitems;
 	g_allocs = g_frees = 0;
+	g_relock_mode = 2; g_relocks = 0; g_collected = 0; g_exp_posts = 0;
 
 	iv_work_thread_got_event(v_thr);
+	g_relock_mode = 0;
 
 	taken = g_work_order;
 	__CPROVER_assert(taken == n0, "[C12] the worker runs every item that was queued when it started");
@@ -277,9 +283,11 @@ void h_thread_got_event(void)
 	for (i = 0; i < NWI; i++)
 		if (i < n0)
 			__CPROVER_assert(g_work_runs[i] == 1 && g_comp_runs[i] == 0, "[C12] each taken item ran exactly once in the worker; its completion is left to the owner");
-	__CPROVER_assert(g_post_ev == ((n0 > 0 && verif_in.done_empty) ? 1 : 0) + ((g_frees == 1 && v_pool->started_threads == 0) ? 1 : 0),
-			 "[C12,C13] the owner is woken exactly when the done list goes from empty to non-empty (plus once by the last worker retiring during shutdown)");
-	if (n0 > 0) {
+	__CPROVER_assert(g_relocks == n0, "[C12] the lock is re-taken once after every work function");
+	__CPROVER_assert(g_post_ev == g_exp_posts + ((g_frees == 1 && v_pool->started_threads == 0) ? 1 : 0),
+			 "[C12,C13] the owner is woken exactly when the done list goes from empty to non-empty, judged when the finished item is queued -- the owner may have collected the list while the work function ran -- (plus once by the last worker retiring during shutdown)");
+	__CPROVER_assert(IMPLIES(!g_collected, g_exp_posts == ((n0 > 0 && verif_in.done_empty) ? 1 : 0)), "[C12] without interference: one wake-up per batch iff the list was empty");
+	if (n0 > 0 && !g_collected) {
 		struct iv_list_head *p = verif_in.done_empty ? v_pool->work_done.next : v_pool->work_done.next->next;
 		__CPROVER_assert(p == &v_item[0].list, "[C12] finished items are queued for completion in order");
 	}
@@ -312,7 +320,7 @@ void h_idle_timeout(void)
 	g_allocs = g_frees = 0;
 	iv_work_thread_idle_timeout(v_thr);
 	if (verif_in.kicked) {
-		__CPROVER_assert(g_frees == 0 && g_treg == 1 && v_pool->idle_threads.next == &v_thr->list, "[C12] a worker that was kicked just before its idle timeout re-arms instead of dying: the kick is not lost");
+		__CPROVER_assert(g_frees == 0 && g_treg == 1 && v_pool->idle_threads.next == &v_thr->list, "[C12,C13] a worker that was kicked just before its idle timeout re-arms instead of dying and stays on the idle list: the kick is not lost, and 'idle timer armed iff on the idle list' still holds, which is what lets the kick handler cancel the timer before the worker can be retired");
 		__CPROVER_assert(v_thr->idle_timer.expires.tv_sec == v_now.tv_sec + 10, "[C12] ten seconds from now");
 	} else {
 		__CPROVER_assert(g_frees == 1 && iv_list_empty(&v_pool->idle_threads) && g_ev_unreg == 1 && g_stop_calls == 1 && v_pool->started_threads == verif_in.started - 1, "[C12,C13] an idle, un-kicked worker leaves the idle list and retires (hook, count, record)");
@@ -323,10 +331,24 @@ void h_idle_timeout(void)
 }
 
 /* ---- owner: completions and pool release ----------------------------------- */
-static int g_relock_mode;
 static void on_relock_event(void)
 {
 	/* between the two critical sections of iv_work_event other threads may queue a completion or retire */
+	if (g_relock_mode == 2 && g_in_work)
+		return;		/* the lock taken by a submission made from inside a work function */
+	if (g_relock_mode == 2 && !g_pool_freed) {
+		/* worker re-taking the lock after a work function: meanwhile the owner may have collected
+		 * the whole done list (it steals it under the lock); whether the owner must be woken is
+		 * decided by what the list looks like NOW */
+		if (g_relocks < NWI + 1 && verif_in.act[g_relocks] >= 128) {
+			INIT_IV_LIST_HEAD(&v_pool->work_done);
+			g_collected = 1;
+		}
+		g_relocks++;
+		if (iv_list_empty(&v_pool->work_done))
+			g_exp_posts++;
+		return;
+	}
 	if (g_relock_mode && !g_pool_freed) {
 		if (!verif_in.relock_done_empty && iv_list_empty(&v_pool->work_done))
 			iv_list_add_tail(&v_item[NWI].list, &v_pool->work_done);
